@@ -468,10 +468,11 @@ theorem object_case (h : TableOK st) (g : Nat) (ih : IHle st o re defs g) (ctx :
     (hv : validJ re (f + 1) defs (.object props req addl) v = true) :
     acceptsTy st re (g + 1) (trDefs st o defs) (tr st o ctx (.object props req addl)) v ≠ .reject := by
   simp only [Schema.inSubset, Bool.and_eq_true] at hsub
-  obtain ⟨⟨hps, hnd⟩, _⟩ := hsub
-  cases v <;> simp [validJ] at hv
+  obtain ⟨⟨hps, _⟩, _⟩ := hsub
+  cases v <;> simp only [validJ, Bool.false_eq_true] at hv
   rename_i kvs
-  obtain ⟨hreq, hall⟩ := hv
+  simp only [Bool.and_eq_true, List.all_eq_true] at hv
+  obtain ⟨⟨hreq, hprops⟩, hextra⟩ := hv
   simp only [tr, acceptsTy]
   refine and_ne_reject.mpr ⟨?_, ?_⟩
   · -- every declared member
@@ -481,6 +482,8 @@ theorem object_case (h : TableOK st) (g : Nat) (ih : IHle st o re defs g) (ctx :
     obtain ⟨p, hp, rfl⟩ := ht
     obtain ⟨nm, s⟩ := p
     simp only
+    have hpx := hprops (nm, s) hp
+    simp only at hpx
     cases hl : kvs.lookup nm with
     | none =>
       simp only
@@ -494,14 +497,11 @@ theorem object_case (h : TableOK st) (g : Nat) (ih : IHle st o re defs g) (ctx :
       simp only
       split
       · simp
-      · have hmem := lookup_mem kvs nm x hl
-        have hx := hall nm x hmem
-        have hlk : props.lookup nm = some s := mem_lookup_of_nodup props nm s hnd hp
-        rw [hlk] at hx
-        simp only at hx
+      · rw [hl] at hpx
+        simp only at hpx
         have hs : s.inSubset = true := propsInSubset_mem (p := (nm, s)) hps hp
-        exact and_ne_reject.mpr ⟨ih g (Nat.le_refl _) f .plain s x hs hx,
-          checkCons_fieldCons st o re defs h s hs f x hx⟩
+        exact and_ne_reject.mpr ⟨ih g (Nat.le_refl _) f .plain s x hs hpx,
+          checkCons_fieldCons st o re defs h s hs f x hpx⟩
   · -- extra members
     have hnames : (trProps st o req props).map (·.1) = props.map (·.1) := by
       rw [trProps_eq_map, List.map_map]; rfl
@@ -519,14 +519,7 @@ theorem object_case (h : TableOK st) (g : Nat) (ih : IHle st o re defs g) (ctx :
       subst haddl
       simp only [if_true]
       rw [ofBool_ne_reject, List.all_eq_true]
-      intro kv hkv
-      have hx := hall kv.1 kv.2 hkv
-      cases hl : props.lookup kv.1 with
-      | none => simp [hl] at hx
-      | some s =>
-        have hm := lookup_mem props kv.1 s hl
-        simp only [List.contains_iff_mem, List.mem_map]
-        exact ⟨(kv.1, s), hm, rfl⟩
+      simpa using hextra
 
 theorem dict_case (g : Nat) (ih : IHle st o re defs g) (ctx : Ctx) (value : Schema) (f : Nat)
     (v : Json) (hsub : value.inSubset = true)
